@@ -119,6 +119,14 @@ int main(int argc, char** argv) {
 		using CSub = decltype(std::declval<multi::array<int, RD> const&>()());
 		if(std::is_copy_constructible_v<CSub>) violation("C16:const-view-copy-constructible", "a named read-only view can be copy-constructed into another view object", false);
 		if(std::is_assignable_v<CSub&, CSub const&> || std::is_assignable_v<CSub&, Sub const&> || std::is_assignable_v<CSub&&, Sub const&>) violation("C16:const-view-assignable", "a read-only view accepts assignment", false);
+		{	// a NAMED view / reference (any constness of the object, any element constness) cannot be copied into another view object
+			using CR = multi::array_ref<int, RD, int const*>; using MR = multi::array_ref<int, RD>;
+			auto nocopy = [&](bool bad, char const* what) { count("copy_facts"); if(bad) violation(std::string("C16:named-view-copy-constructible:") + what, std::string(what) + " can be copy-constructed from a named object", false); };
+			nocopy(std::is_constructible_v<MR, MR&>, "array_ref(from non-const lvalue)"); nocopy(std::is_constructible_v<MR, MR const&>, "array_ref(from const lvalue)"); nocopy(std::is_constructible_v<CR, CR&>, "array_cref(from non-const lvalue)"); nocopy(std::is_constructible_v<CR, CR const&>, "array_cref(from const lvalue)");
+			nocopy(std::is_constructible_v<std::decay_t<Sub>, std::decay_t<Sub>&>, "subarray(from non-const lvalue)"); nocopy(std::is_constructible_v<std::decay_t<Sub>, std::decay_t<Sub> const&>, "subarray(from const lvalue)");
+			nocopy(std::is_constructible_v<std::decay_t<CSub>, std::decay_t<CSub>&>, "const_subarray(from non-const lvalue)"); nocopy(std::is_constructible_v<std::decay_t<CSub>, std::decay_t<CSub> const&>, "const_subarray(from const lvalue)");
+			nocopy(std::is_convertible_v<MR&, MR>, "array_ref(implicit copy)"); nocopy(std::is_convertible_v<CR&, CR>, "array_cref(implicit copy)");
+		}
 		{	// no implicit or explicit way back from a read-only handle to its mutable counterpart (iterators, views, element ranges, cursors); the other direction exists
 			using Arr = multi::array<int, RD>; using It = typename Arr::iterator; using CIt = typename Arr::const_iterator;
 			using El = decltype(std::declval<Arr&>().elements()); using CEl = decltype(std::declval<Arr const&>().elements()); using EIt = decltype(std::declval<Arr&>().elements().begin()); using CEIt = decltype(std::declval<Arr const&>().elements().begin());
